@@ -3,6 +3,7 @@ package rules
 import (
 	"fmt"
 	"go/token"
+	"os"
 	"strings"
 
 	"golang.org/x/tools/go/ssa"
@@ -144,7 +145,7 @@ func c02(w *core.World, r *core.Report) {
 			continue
 		}
 		ok := false
-		for _, b := range f.Blocks {
+		for _, b := range core.Blocks(f) {
 			for _, in := range b.Instrs {
 				for _, op := range in.Operands(nil) {
 					if op == nil || *op == nil {
@@ -325,6 +326,9 @@ func ruleOldPrioDelete(w *core.World, r *core.Report, low *ssa.Function) {
 					return
 				}
 				for _, oc := range core.OriginCalls(v) {
+					if os.Getenv("DSCHECK_DEBUG_OPD") != "" {
+						fmt.Printf("OPD walk d=%d v=%s oc=%s key=%s\n", d, v, oc, core.CalleeKey(oc))
+					}
 					if core.CalleeIs(oc, kTIGetPathSet, kTIGetUpdates) {
 						for _, o2 := range core.OriginCalls(core.CallRecv(oc)) {
 							if core.CalleeIs(o2, kGetOldIntent) {
@@ -531,7 +535,7 @@ func c05(w *core.World, r *core.Report) {
 		r.Check(okFw, "ROLLBACK-REACH", core.Site(adapter, "forwards to lowlevelTransactionSet"), w.Pos(adapter.Pos()), "the rollback runs the same pipeline with the given transaction")
 		// GetRollbackTransaction
 		var next *ssa.Next
-		for _, b := range getRb.Blocks {
+		for _, b := range core.Blocks(getRb) {
 			for _, in := range b.Instrs {
 				if n, ok := in.(*ssa.Next); ok {
 					if rg, ok := n.Iter.(*ssa.Range); ok && core.FieldOf(rg.X) == "datastore/types.Transaction.oldIntents" {
@@ -706,7 +710,7 @@ func c09(w *core.World, r *core.Report) {
 				}
 			}
 		}
-		for _, b := range drop.Blocks {
+		for _, b := range core.Blocks(drop) {
 			for _, in := range b.Instrs {
 				st, ok := in.(*ssa.Store)
 				if !ok {
